@@ -359,7 +359,7 @@ def render_pass(ctx, name: str, docs: list[str], masks: list[tuple[str, str]], s
         return rows, ""
 
     rows, logs = [], []
-    with ThreadPoolExecutor(max_workers=16) as ex:
+    with ThreadPoolExecutor(max_workers=6) as ex:
         for r, log in ex.map(run, list(enumerate(chunks))):
             if r is None:
                 logs.append(log[-1500:])
@@ -385,7 +385,7 @@ def render_trees(ctx, name: str, trees: list[str], shard: int = 50):
         return (xs, "") if len(xs) == len(chunk) else (None, out[-800:])
 
     res, logs = [], []
-    with ThreadPoolExecutor(max_workers=16) as ex:
+    with ThreadPoolExecutor(max_workers=6) as ex:
         for r, log in ex.map(run, list(enumerate(chunks))):
             if r is None:
                 return None, log[-1500:]
@@ -549,7 +549,7 @@ def docx_oracle(ctx, term, r, out, xml, variant, enc):
 def docx_part(ctx, dx):
     pre2 = PRE + "From S2T Require Import Gen.C02Tables C02.Witness.\n"
     # ---- structured stream: abstract documents
-    docs = gen_docs(ctx, ctx.n(160, 4000))
+    docs = gen_docs(ctx, ctx.n(130, 4000))
     rng = ctx.rng
     mask = lambda: "[" + ";".join(str(rng.choice([0, 0, 1, 1, 2])) for _ in range(rng.randint(0, 3))) + "]%N"
     masks = [(mask(), mask()) for _ in docs]
